@@ -3,7 +3,13 @@
 // judge is TLC (spec/StreamTrace.tla on top of spec/ParseStream.tla).
 //
 // One ndjson line per history:
-//   {"f":"hist","ch":0|1,"text":[code points],"ev":[event,...]}
+//   {"f":"hist","ch":0|1,"sk":stream kind,"fa":failing offset,"text":[code points],"ev":[event,...]}
+//   stream kinds: 0 std::basic_istringstream, 1 std::basic_stringstream (in|out), 2 a stream buffer that
+//   cannot seek, 3 a stream buffer that throws when the character at offset fa is requested
+//   (kinds 1-3 and the events 7-10 below belong to the extension round: observed only, see StreamTrace.tla)
+//   [7,i,j,eq] position i == position j; [8,i,line,col] location of position i via operator<<, parsed;
+//   [9,r] get_char_error (r = -1: failure "EOF", -3: failure with another message);
+//   [10,[w],res,line,col] string(w).parse
 // events (integers only, see spec/ParseStream.tla):
 //   [1,r]                  get_char: r >= 0 character, -1 nothing, -2 exception
 //   [2,id,off,line,col]    get_position (id-th position handed out), [2,-2] exception
@@ -33,6 +39,13 @@
 #include <fcppt/parse/basic_char_set.hpp>
 #include <fcppt/parse/basic_char_set_container.hpp>
 #include <fcppt/parse/basic_literal.hpp>
+#include <fcppt/parse/basic_string.hpp>
+#include <fcppt/parse/get_char_error.hpp>
+#include <fcppt/parse/location_output.hpp>
+#include <fcppt/parse/position_equal.hpp>
+#include <fcppt/parse/location_equal.hpp>
+#include <fcppt/optional/comparison.hpp>
+#include <fcppt/output_to_string.hpp>
 #include <fcppt/parse/basic_stream_impl.hpp>
 #include <fcppt/parse/error.hpp>
 #include <fcppt/parse/location.hpp>
@@ -46,6 +59,9 @@
 #include <fcppt/parse/skipper/epsilon.hpp>
 
 #include <ios>
+#include <memory>
+#include <stdexcept>
+#include <streambuf>
 #include <istream>
 #include <sstream>
 #include <string>
@@ -94,18 +110,79 @@ void location_prefix(std::basic_string<Ch> const &msg, int &res, long long &line
   col = c;
 }
 
+// kind 2: serves the text, cannot seek (the default seekoff / seekpos of basic_streambuf fail)
+// kind 3: serves the first `failat` characters, then throws from underflow; can seek within them
+template <typename Ch>
+class test_buf : public std::basic_streambuf<Ch>
+{
+public:
+  using traits = std::char_traits<Ch>;
+  using pos_type = typename traits::pos_type;
+  using off_type = typename traits::off_type;
+  test_buf(std::basic_string<Ch> _data, long long const _failat, bool const _seekable)
+      : data_{std::move(_data)}, failing_{_failat >= 0}, seekable_{_seekable}
+  {
+    std::size_t const n = failing_ ? static_cast<std::size_t>(_failat) : data_.size();
+    this->setg(data_.data(), data_.data(), data_.data() + n);
+  }
+
+protected:
+  typename traits::int_type underflow() override
+  {
+    if (failing_) throw std::runtime_error("read error");
+    return traits::eof();
+  }
+  pos_type seekoff(off_type const _off, std::ios_base::seekdir const _dir, std::ios_base::openmode) override
+  {
+    if (!seekable_) return pos_type(off_type(-1));
+    off_type const base = _dir == std::ios_base::beg ? 0 : _dir == std::ios_base::cur ? this->gptr() - this->eback() : this->egptr() - this->eback();
+    return this->seekpos(pos_type(base + _off), std::ios_base::in);
+  }
+  pos_type seekpos(pos_type const _pos, std::ios_base::openmode) override
+  {
+    off_type const o = off_type(_pos);
+    if (!seekable_ || o < 0 || o > this->egptr() - this->eback()) return pos_type(off_type(-1));
+    this->setg(this->eback(), this->eback() + o, this->egptr());
+    return _pos;
+  }
+
+private:
+  std::basic_string<Ch> data_;
+  bool failing_;
+  bool seekable_;
+};
+
+template <typename Ch>
+std::unique_ptr<std::basic_streambuf<Ch>> make_buf(int const kind, cps_t const &text, long long const failat)
+{
+  if (kind == 2) return std::make_unique<test_buf<Ch>>(to_string<Ch>(text), -1, false);
+  if (kind == 3) return std::make_unique<test_buf<Ch>>(to_string<Ch>(text), failat, true);
+  return nullptr;
+}
+template <typename Ch>
+std::unique_ptr<std::basic_istream<Ch>> make_stream(int const kind, cps_t const &text, std::basic_streambuf<Ch> *const buf)
+{
+  if (kind == 0) return std::make_unique<std::basic_istringstream<Ch>>(to_string<Ch>(text));
+  if (kind == 1) return std::make_unique<std::basic_stringstream<Ch>>(to_string<Ch>(text), std::ios_base::in | std::ios_base::out);
+  return std::make_unique<std::basic_istream<Ch>>(buf);
+}
+
 template <typename Ch>
 struct History
 {
-  std::basic_istringstream<Ch> iss;
+  std::unique_ptr<std::basic_streambuf<Ch>> buf;
+  std::unique_ptr<std::basic_istream<Ch>> isp;
+  std::basic_istream<Ch> &iss;
   fcppt::parse::detail::stream<Ch> st;
   std::vector<fcppt::parse::position<Ch>> saved;
   std::string ev;
   bool first = true;
 
-  explicit History(cps_t const &text)
-      : iss{to_string<Ch>(text)},
-        st{fcppt::reference_to_base<std::basic_istream<Ch>>(fcppt::make_ref(iss))}
+  explicit History(cps_t const &text, int const kind = 0, long long const failat = -1)
+      : buf{make_buf<Ch>(kind, text, failat)},
+        isp{make_stream<Ch>(kind, text, buf.get())},
+        iss{*isp},
+        st{fcppt::make_ref(iss)}
   {
     iss.unsetf(std::ios_base::skipws);
   }
@@ -229,15 +306,81 @@ struct History
       emit("[6," + vj::arr(op.cs) + "," + std::to_string(res) + "," + std::to_string(line) + "," + std::to_string(col) + "," + std::to_string(ch) + "]");
       return true;
     }
+    case 7:
+    {
+      if (op.a < 0 || static_cast<std::size_t>(op.a) >= saved.size() || op.cs.size() != 1U || op.cs[0] < 0 ||
+          static_cast<std::size_t>(op.cs[0]) >= saved.size())
+        return false;
+      bool const eq{saved[static_cast<std::size_t>(op.a)] == saved[static_cast<std::size_t>(op.cs[0])]};
+      emit("[7," + std::to_string(op.a) + "," + std::to_string(op.cs[0]) + "," + (eq ? "1" : "0") + "]");
+      return true;
+    }
+    case 8:
+    {
+      if (op.a < 0 || static_cast<std::size_t>(op.a) >= saved.size()) return false;
+      long long line = -1, col = -1;
+      auto const &loc{saved[static_cast<std::size_t>(op.a)].location()};
+      if (loc.has_value())
+      {
+        // "Line " + output + ": " is how detail/expected.hpp composes the documented error prefix
+        int res = 0;
+        location_prefix(
+            std::basic_string<Ch>{Ch('L'), Ch('i'), Ch('n'), Ch('e'), Ch(' ')} +
+                fcppt::output_to_string<std::basic_string<Ch>>(loc.get_unsafe()) + std::basic_string<Ch>{Ch(':'), Ch(' ')},
+            res, line, col);
+        if (res != 0) line = col = -1;
+      }
+      emit("[8," + std::to_string(op.a) + "," + std::to_string(line) + "," + std::to_string(col) + "]");
+      return true;
+    }
+    case 9:
+    {
+      long long r = -1;
+      try
+      {
+        auto const res{fcppt::parse::get_char_error(ref())};
+        if (res.has_success())
+          r = static_cast<long long>(static_cast<std::make_unsigned_t<Ch>>(res.get_success_unsafe()));
+        else
+          r = res.get_failure_unsafe().get() == std::basic_string<Ch>{Ch('E'), Ch('O'), Ch('F')} ? -1 : -3;
+      }
+      catch (exc const &)
+      {
+        r = -2;
+      }
+      emit("[9," + std::to_string(r) + "]");
+      return true;
+    }
+    case 10:
+    {
+      int res = 0;
+      long long line = 0, col = 0;
+      try
+      {
+        fcppt::parse::basic_string<Ch> const parser{to_string<Ch>(op.cs)};
+        auto const result{parser.parse(ref(), fcppt::parse::skipper::epsilon{})};
+        if (result.has_success())
+          res = 1;
+        else
+          location_prefix(result.get_failure_unsafe().get(), res, line, col);
+      }
+      catch (exc const &)
+      {
+        res = -2;
+      }
+      emit("[10," + vj::arr(op.cs) + "," + std::to_string(res) + "," + std::to_string(line) + "," + std::to_string(col) + "]");
+      return true;
+    }
     default:
       return false;
     }
   }
 };
 
-std::string prefix(int ch, cps_t const &text)
+std::string prefix(int ch, cps_t const &text, int const kind = 0, long long const failat = -1)
 {
-  return "{\"f\":\"hist\",\"ch\":" + std::to_string(ch) + ",\"text\":" + vj::arr(text) + ",\"ev\":[";
+  return "{\"f\":\"hist\",\"ch\":" + std::to_string(ch) + ",\"sk\":" + std::to_string(kind) + ",\"fa\":" + std::to_string(failat) +
+         ",\"text\":" + vj::arr(text) + ",\"ev\":[";
 }
 
 // The documented whitespace skipper: repetition of char_set over space_set (what
@@ -254,12 +397,18 @@ std::vector<cps_t> const kSets{{97, 32}, {10, 9}, {120, 121}};
 cps_t const kLits{97, 120, 10, 32};
 
 // a random call sequence, generated while it is executed (set_position needs a saved position)
+std::vector<cps_t> const kWords{{97}, {97, 32}, {10, 97}, {32, 9}, {97, 97, 10}};
+
+// ext = false: the calls of the property statement on a std::basic_istringstream (kind 0);
+// ext = true (extension round, observed only): any stream kind and the calls 7-10 as well
 template <typename Ch>
-void random_history(int ch, cps_t const &text, vj::Rng &rng)
+void random_history(int ch, cps_t const &text, vj::Rng &rng, bool const ext = false)
 {
-  vj::begin_call(prefix(ch, text));
-  History<Ch> h{text};
   long long const n = static_cast<long long>(text.size());
+  int const kind = ext ? static_cast<int>(rng.below(4)) : 0;
+  long long const failat = kind == 3 ? rng.range(0, n) : -1;
+  vj::begin_call(prefix(ch, text, kind, failat));
+  History<Ch> h{text, kind, failat};
   long long const len = rng.range(n + 2, 2 * n + 10);
   long long const bad_at = rng.below(8) == 0 ? rng.range(0, len - 1) : -1;
   for (long long i = 0; i < len; ++i)
@@ -267,6 +416,28 @@ void random_history(int ch, cps_t const &text, vj::Rng &rng)
     Op op{1, 0, {}};
     if (i == bad_at)
       op.k = 4;
+    else if (ext && rng.below(4) == 0)
+    {
+      std::uint64_t const w = rng.below(4);
+      if (w == 0 && !h.saved.empty())
+      {
+        op.k = 7;
+        op.a = static_cast<long long>(rng.below(h.saved.size()));
+        op.cs = {static_cast<long long>(rng.below(h.saved.size()))};
+      }
+      else if (w == 1 && !h.saved.empty())
+      {
+        op.k = 8;
+        op.a = static_cast<long long>(rng.below(h.saved.size()));
+      }
+      else if (w == 2)
+      {
+        op.k = 10;
+        op.cs = kWords[rng.below(kWords.size())];
+      }
+      else
+        op.k = 9;
+    }
     else
     {
       std::uint64_t const w = rng.below(16);
@@ -372,10 +543,10 @@ void scan_record(int ch, cps_t const &text, std::size_t k)
 }
 
 template <typename Ch>
-void replay_script(int ch, cps_t const &text, std::vector<Op> const &ops)
+void replay_script(int ch, cps_t const &text, std::vector<Op> const &ops, int const kind = 0, long long const failat = -1)
 {
-  vj::begin_call(prefix(ch, text));
-  History<Ch> h{text};
+  vj::begin_call(prefix(ch, text, kind, failat));
+  History<Ch> h{text, kind, failat};
   for (Op const &op : ops) h.run(op);
   vj::end_call(h.ev + "]}");
 }
@@ -421,6 +592,11 @@ try
           if ((chmask & 1) != 0) random_history<char>(0, text, rng);
           if ((chmask & 2) != 0) random_history<wchar_t>(1, text, rng);
         }
+        // extension round: one history over the other stream kinds / calls, alternating the character type
+        if ((counter & 1U) == 0U)
+          random_history<char>(0, text, rng, true);
+        else
+          random_history<wchar_t>(1, text, rng, true);
         if (len <= 7)
         {
           if ((chmask & 1) != 0) entry_records<char>(0, text);
@@ -439,6 +615,8 @@ try
         text.push_back(rng.below(4) <= nlw ? 10 : kSyms[rng.below(4)]);
       random_history<char>(0, text, rng);
       random_history<wchar_t>(1, text, rng);
+      random_history<char>(0, text, rng, true);
+      random_history<wchar_t>(1, text, rng, true);
       entry_records<char>(0, text);
       entry_records<wchar_t>(1, text);
     }
@@ -482,8 +660,9 @@ try
       for (auto const &o : v->at("ops").a)
       {
         Op op{static_cast<int>(o->a.at(0)->n), 0, {}};
-        if (op.k == 3 || op.k == 5) op.a = o->a.at(1)->n;
-        if (op.k == 6)
+        if (op.k == 3 || op.k == 5 || op.k == 7 || op.k == 8) op.a = o->a.at(1)->n;
+        if (op.k == 7) op.cs = {o->a.at(2)->n};
+        if (op.k == 6 || op.k == 10)
           for (auto const &c : o->a.at(1)->a) op.cs.push_back(c->n);
         ops.push_back(op);
       }
@@ -501,8 +680,10 @@ try
         if ((chmask & 2) != 0) scan_record<wchar_t>(1, text, k);
         continue;
       }
-      if ((chmask & 1) != 0) replay_script<char>(0, text, ops);
-      if ((chmask & 2) != 0) replay_script<wchar_t>(1, text, ops);
+      int const kind = static_cast<int>(v->num_or("sk", 0));
+      long long const failat = v->num_or("fa", -1);
+      if ((chmask & 1) != 0) replay_script<char>(0, text, ops, kind, failat);
+      if ((chmask & 2) != 0) replay_script<wchar_t>(1, text, ops, kind, failat);
     }
     vj::close();
     return 0;
